@@ -169,6 +169,13 @@ pub struct BrokerCfg {
     pub overrun: bool,
     /// The broker answers PUBREL last: every other owed packet goes out before any PUBCOMP.
     pub pubcomp_last: bool,
+    /// The broker's PUBREL comes in any of its legal forms: short, with the reason code 0x92 (packet identifier
+    /// not found - what a broker says that lost track of the PUBREC'd message), or with an explicit property length.
+    pub pubrel_forms: bool,
+    /// Further legal CONNACK properties the client has no use for (a choice per CONNACK; see `broker::connack_extras`):
+    /// 0 none, 1 Session Expiry 0, 2 Session Expiry max, 3 capability flags all 0, 4 Topic Alias Maximum,
+    /// 5 Reason String + repeated User Property, 6 Response Information + Server Reference.
+    pub connack_extras: Vec<u8>,
     /// Offer, as a fault (cost 1), an acknowledgement of the wrong kind carrying the identifier of a
     /// request that is still waiting (PUBACK for a SUBSCRIBE, SUBACK for a publish ...).
     pub wrong_kind_acks: bool,
@@ -200,6 +207,8 @@ impl Default for BrokerCfg {
             script_burst: false,
             overrun: false,
             pubcomp_last: false,
+            pubrel_forms: false,
+            connack_extras: vec![0],
             wrong_kind_acks: false,
             dup_pubrec_fail: false,
         }
